@@ -99,8 +99,16 @@ def check_case(case):
                 return 'ambiguous'
             return 'absent'
         p = spans.pos(labs, label)
+        if p is not None and spans.is_pandas(desc) and sum(1 for x in labs if spans.pos([x], label) == 0) > 1:
+            return 'ambiguous'        # pandas resolves a repeated label to a slice / mask, not to one position
         return 'absent' if p is None else p
 
+    dup = [x for x in labs if sum(1 for y in labs if spans.pos([y], x) == 0) > 1]
+    if dup and not any(lab is not None and spans.pos(dup, lab) is not None for lab in (start, end)):
+        # a span with repeated labels: only the clause about an explicit start/end that does not resolve to a
+        # single position is asserted (period -> label -> position is not one-to-one otherwise)
+        res.tag('skipped:repeated-labels-without-ambiguous-start-end')
+        return res
     bad = None
     p0 = L
     p1 = n - 1 - K
@@ -187,10 +195,14 @@ def script_for(n, kinds, fault=None):
     return script
 
 
+DUPLICATE_SPANS = [{'k': 'pdindex', 'items': ['a', 'b', 'a', 'c']}, {'k': 'pdindex', 'items': ['a', 'a', 'b', 'c']},
+                   {'k': 'pdindex', 'items': [3, 1, 2, 1, 0]}, {'k': 'pdindex', 'items': [5, 6, 6]}]
+
+
 def gen_pairs(max_len):
     def gen():
         i = 0
-        for desc in spans.catalogue(max_len):
+        for desc in spans.catalogue(max_len) + DUPLICATE_SPANS:
             labs = spans.labels(desc)
             n = len(labs)
             cands = [None] + [spans.enc_label(x) for x in labs] + [spans.enc_label(x) for x in spans.absent_labels(desc)[:1]]
